@@ -648,7 +648,11 @@ pub(crate) fn shr(lhs: Number, rhs: Number, arena: &mut Arena) -> Result<Number,
                 }
             };
 
-            let res = lhs.get_num().checked_shr(rhs).unwrap_or(0);
+            // shifting out every bit leaves only the sign: 0, or -1 for a negative number
+            let res = lhs
+                .get_num()
+                .checked_shr(rhs)
+                .unwrap_or(if lhs.get_num() < 0 { -1 } else { 0 });
             Ok(Number::arena_from(res, arena))
         }
         Number::Integer(lhs) => {
